@@ -4,7 +4,7 @@
 
 use super::c09::history_shape;
 use super::*;
-use crate::builder_hist::{gen_history, reshape, run_model, run_real, RealOutcome};
+use crate::builder_hist::{gen_history, reshape, run_model, run_real, run_real_interleaved, RealOutcome};
 use crate::engine::Tier;
 use crate::recv::guard;
 use crate::rng::fnv;
@@ -46,16 +46,27 @@ impl Check for C10 {
             None => return out,
         };
         st.distinct(fnv(history_shape(sc).as_bytes()) ^ fnv(&(sc.ops.len() as u64).to_le_bytes()));
-        // shape 255 = the history as generated; 0..3 = re-realisations of its plan
         let mut arng = Rng::new(sc.aux);
-        for shape in [255u8, 0, 1, 2, 3] {
-            let ops: Vec<BOp> = if shape == 255 {
+        // shape 255 = the history as generated; 0..3 = re-realisations of its plan; 4 = the
+        // history as generated, its operations alternating with those of a second builder that
+        // executes the same operations in reverse order (two headers assembled side by side)
+        for shape in [255u8, 0, 1, 2, 3, 4] {
+            let ops: Vec<BOp> = if shape == 255 || shape == 4 {
                 sc.ops.clone()
             } else {
                 reshape(&sc.ops, shape, &mut arng)
             };
             let model = run_model(ctor, &ops);
-            let real = match guard(|| run_real(ctor, &ops)) {
+            let run = || {
+                if shape == 4 {
+                    let rev: Vec<BOp> = ops.iter().rev().cloned().collect();
+                    let other = crate::scenario::Ctor::New { vc: 0x21, afp: 0x11 };
+                    run_real_interleaved(ctor, &ops, &other, &rev)
+                } else {
+                    run_real(ctor, &ops)
+                }
+            };
+            let real = match guard(run) {
                 Ok(r) => r,
                 Err(_) => {
                     st.hit("skip:panic");
@@ -86,6 +97,7 @@ impl Check for C10 {
                 1 => st.hit("probe:shape_batched"),
                 2 => st.hit("probe:shape_tlv_encoders_swapped"),
                 3 => st.hit("probe:shape_reserve_sprinkled"),
+                4 => st.hit("probe:shape_two_builders_interleaved"),
                 _ => {}
             }
             if ops.iter().any(|o| matches!(o, BOp::Batch(p) if p.len() > 1)) {
@@ -131,6 +143,7 @@ impl Check for C10 {
                     0 => "singles_shape_differs",
                     1 => "batched_shape_differs",
                     2 => "tlv_encoder_shape_differs",
+                    4 => "differs_when_interleaved_with_another_builder",
                     _ => "reserve_shape_differs",
                 };
                 let lo = at.saturating_sub(4);
@@ -165,6 +178,7 @@ impl Check for C10 {
             "probe:shape_batched",
             "probe:shape_tlv_encoders_swapped",
             "probe:shape_reserve_sprinkled",
+            "probe:shape_two_builders_interleaved",
             "probe:batch_of_several",
             "probe:batch_from_lazy_iterator",
             "probe:advanced_section_written",
